@@ -25,6 +25,7 @@ func TestC04(t *testing.T) {
 		"programs whose operands are wrapped at random positions in effectful tracer calls (ti/tb/ts print 't <id>' and return their argument; tn bumps a global counter and returns it, so a duplicated evaluation changes values): operands of every operator, arguments, indices, slice elements, printed/returned/assigned values, if / else-if / for conditions, case expressions. Oracle: reference interpreter with the README's eager rule; the interleaved trace is compared line by line. Non-trivial = at least two tracers; distinct by source text.",
 		[]string{"switch tags and range operands stay pure (number of evaluations unspecified by the property)"})
 	defer r.Flush()
+	runC04Table(r, e)
 	cfg := c04Cfg(e.Thorough())
 	maxSteps := e.Pick(2500, 8000)
 	checkRapid(t, r, func(t *rapid.T) {
